@@ -431,6 +431,7 @@ QuickSlice(sh, st, e, pos) ==
    \/ (sh.shape = "wholedef_ref" /\ st = "plain" /\ e \in {"file_rel", "uri_remote"} /\ pos = "op" /\ sh.site \in {"properties", "schema", "content.schema", "headers"})
    \/ (sh.shape \in {"direct", "chain3", "child", "wholefile"} /\ st = "plain" /\ e \in {"resolvein", "file_abs_toggled", "resolvein_toggled"} /\ pos = "op")
    \/ (sh.shape \in {"direct", "child", "sameroot"} /\ st = "plain" /\ e \in {"file_abs_retry", "resolvein_retry"} /\ pos = "op")
+   \/ (sh.shape = "localalias_childlocal" /\ st = "plain" /\ e = "data" /\ pos = "op")
    \/ (sh.shape \in {"deepcomp_local", "rootdef", "pi_nearmiss_local", "pathfragment_nearmiss_local"} /\ st = "plain" /\ e = "data")
    \/ (st \in AbsStyles /\ sh.shape \in {"direct", "child", "wholefile"} /\ e = "datapath" /\ pos = "op")
    \/ sh.shape = "otherhost_samepath"
